@@ -414,6 +414,12 @@ func runCheck(def PropDef, tier string, seed int64, leanStatusPath string) int {
 	if def.Level == "other" {
 		cov["explanation"] = def.Rule
 	}
+	assumptions := append([]string{
+		"the Lean model describes the code as far as the correspondence run explored and the regenerated facts pin it",
+		"Go: a deferred recover catches every run-time panic; integer conversions wrap; map iteration order is arbitrary",
+		"library behaviour taken as parameters (strconv float formatting/parsing, unicode tables) is cross-checked against the Go standard library, not proved",
+	}, def.Assumptions...)
+	def.Assumptions = assumptions
 	ev := Evidence{PropertyID: def.ID, Tier: tier, Seed: seed, Level: def.Level, Coverage: cov,
 		Assumptions: def.Assumptions, WallS: time.Since(start).Seconds(), Violations: reported}
 	if exit == 1 && reported == 0 {
